@@ -599,7 +599,7 @@ impl Sink {
         if !ok {
             *self.nbad.lock().unwrap() += 1;
         }
-        if !ok || *n % 997 == 1 {
+        if !ok || *n % 997 == 1 || std::env::var("VH_ALL").is_ok() {
             let mut o = self.out.lock().unwrap();
             writeln!(o, "{}", v).unwrap();
         }
